@@ -219,6 +219,10 @@ class LazyWorld:
         out["Cu"] = Cu
         out["Lu[176]"] = iso(Lu, 176)
         out["Be"] = g("Be")
+        # hydrogen isotopes carry their own symbols: what is looked up by symbol differs between H{+} and D{+}
+        out["H.ion[1]"] = ion(H, 1)
+        if out["D"] is not None:
+            out["D.ion[1]"] = ion(out["D"], 1)
         return {k: v for k, v in out.items() if v is not None}
 
     # ----------------------------------------------------------------- digest
@@ -228,6 +232,12 @@ class LazyWorld:
             return "..."
         if isinstance(v, SymObj):
             if v.cls is not None and v.cls.name in ("Element", "Isotope", "Ion", "PeriodicTable"):
+                if depth and v.cls.name != "PeriodicTable":
+                    # the atom a served object refers to: its calculators look data up by that atom's symbol and charge
+                    try:
+                        return f"<atom {I.getattr(v, 'symbol')} {I.getattr(v, 'charge')}>"
+                    except SymRaise:
+                        pass
                 return f"<{v.cls.name}>"
             d = I.heap[v.id]
             cls_d = {}
@@ -236,7 +246,7 @@ class LazyWorld:
                          and not isinstance(x, str)}
             merged = dict(cls_d)
             merged.update(d)
-            return (v.cls.name if v.cls else "obj",) + tuple(sorted((k, self.digest(x, depth + 1)) for k, x in merged.items() if k != "element"))
+            return (v.cls.name if v.cls else "obj",) + tuple(sorted((k, self.digest(x, depth + 1)) for k, x in merged.items()))
         if isinstance(v, dict):
             return tuple(sorted((str(k), self.digest(x, depth + 1)) for k, x in v.items()))
         if isinstance(v, (list, tuple)):
@@ -389,13 +399,14 @@ class Explorer:
         lw.restore(self.base)
         all_tables = [lw.P] + self.tables
         kinds = {"Fe": "Element", "H": "Element", "He": "Element", "Cu": "Element", "Be": "Element", "Fe[56]": "Isotope", "H[1]": "Isotope",
-                 "D": "Isotope", "He[4]": "Isotope", "Lu[176]": "Isotope", "Fe.ion[2]": "Ion", "Fe[56].ion[2]": "IsotopeIon"}
+                 "D": "Isotope", "He[4]": "Isotope", "Lu[176]": "Isotope", "Fe.ion[2]": "Ion", "Fe[56].ion[2]": "IsotopeIon",
+                 "H.ion[1]": "Ion", "D.ion[1]": "IsotopeIon"}
         # events: (label, kind, thunk)
         def events():
             A = lw.atoms(lw.P)
             ev = []
             # per-atom caches (the Xray object behind .xray) multiply the state space: fewer atoms for that group
-            names_ = ("Fe", "Fe.ion[2]", "Fe[56].ion[2]", "He") if reg.key == "xray" else \
+            names_ = (("Fe", "Fe.ion[2]", "Fe[56].ion[2]", "He") + (() if self.nprivate else ("H.ion[1]", "D.ion[1]"))) if reg.key == "xray" else \
                 ("Fe", "Fe[56]", "Fe.ion[2]", "Fe[56].ion[2]", "He", "H[1]", "Cu", "Be", "Lu[176]")
             for an in names_:
                 if an not in A:
